@@ -17,6 +17,10 @@ pub struct Case {
     /// extra single-deviation menu applied at every index on top of `menu` (k = 1 only), e.g. blackholes
     pub extra: Vec<Action>,
     pub expect: Expect,
+    /// datagrams the harness injects itself in every execution of this case
+    pub injects: Vec<crate::net::Inject>,
+    /// run every execution twice (forging off / on) and require identical observations
+    pub differential: bool,
 }
 
 fn menu_null() -> Vec<Action> {
@@ -44,7 +48,7 @@ pub fn family(name: &str, tier: Tier) -> Vec<Case> {
             // covering set: every value of every dimension at least once with null TLS
             let mut add = |s: Scenario, k: usize| {
                 let menu = if s.tls == Tls::Null { menu_null() } else { menu_tls() };
-                out.push(Case { scn: s, menu, k, extra: vec![], expect: Expect::Complete });
+                out.push(Case { scn: s, menu, k, extra: vec![], expect: Expect::Complete, injects: vec![], differential: false });
             };
             let mut s = Scenario::base("data/echo-10000-whole");
             s.tasks = vec![echo_task(10_000, 0)];
@@ -113,7 +117,7 @@ pub fn family(name: &str, tier: Tier) -> Vec<Case> {
             // L1: blocking of every kind, finite faults, must complete
             let mut add = |s: Scenario, k: usize| {
                 let menu = if s.tls == Tls::Null { menu_null() } else { menu_tls() };
-                out.push(Case { scn: s, menu, k, extra: bh(&[0, 1, 2]), expect: Expect::Complete });
+                out.push(Case { scn: s, menu, k, extra: bh(&[0, 1, 2]), expect: Expect::Complete, injects: vec![], differential: false });
             };
             let mut s = Scenario::base("live/stream-credit");
             s.server.stream_window = Some(1000);
@@ -153,7 +157,7 @@ pub fn family(name: &str, tier: Tier) -> Vec<Case> {
                 s.server.handshake_ms = Some(5000);
                 s.tasks = vec![echo_task(6000, 1000)];
                 s.horizon_ms = 60_000;
-                out.push(Case { scn: s, menu: vec![], k: 0, extra: vec![Action::BlackholeFrom(0), Action::BlackholeFrom(1), Action::BlackholeFrom(2)], expect: Expect::Report });
+                out.push(Case { scn: s, menu: vec![], k: 0, extra: vec![Action::BlackholeFrom(0), Action::BlackholeFrom(1), Action::BlackholeFrom(2)], expect: Expect::Report, injects: vec![], differential: false });
             }
         }
         // ------------------------------------------------------------------ FLOW
@@ -171,7 +175,7 @@ pub fn family(name: &str, tier: Tier) -> Vec<Case> {
                     s.client.conn_window = Some(cw.max(64));
                     s.tasks = vec![echo_task(if sw.min(cw) < 10 { 40 } else { 3000 }, 0)];
                     s.horizon_ms = 120_000;
-                    out.push(Case { scn: s, menu: menu_null(), k: 1, extra: vec![], expect: Expect::Complete });
+                    out.push(Case { scn: s, menu: menu_null(), k: 1, extra: vec![], expect: Expect::Complete, injects: vec![], differential: false });
                 }
             }
             // write > window then reset: the RESET_STREAM final size
@@ -184,7 +188,7 @@ pub fn family(name: &str, tier: Tier) -> Vec<Case> {
                     vec![Op::OpenBidi, Op::Write(100, 0), Op::Sleep(60), Op::Reset(5), Op::Sleep(200)],
                     vec![Op::OpenUni, Op::Write(100, 0), Op::Reset(5), Op::Sleep(200)],
                 ];
-                out.push(Case { scn: s, menu: menu_null(), k: 1, extra: vec![], expect: Expect::Nothing });
+                out.push(Case { scn: s, menu: menu_null(), k: 1, extra: vec![], expect: Expect::Nothing, injects: vec![], differential: false });
             }
             // stream-count limits
             for lim in [1u64, 2] {
@@ -192,7 +196,7 @@ pub fn family(name: &str, tier: Tier) -> Vec<Case> {
                 s.server.max_bidi_remote = Some(lim);
                 s.server.max_uni_remote = Some(lim);
                 s.tasks = vec![[echo_task(300, 0), echo_task(300, 0), echo_task(300, 0)].concat(), [uni_task(300, 0), uni_task(300, 0), uni_task(300, 0)].concat()];
-                out.push(Case { scn: s, menu: menu_null(), k: if quick { 1 } else { 2 }, extra: vec![], expect: Expect::Complete });
+                out.push(Case { scn: s, menu: menu_null(), k: if quick { 1 } else { 2 }, extra: vec![], expect: Expect::Complete, injects: vec![], differential: false });
             }
         }
         // ------------------------------------------------------------------ LIFECYCLE
@@ -224,7 +228,7 @@ pub fn family(name: &str, tier: Tier) -> Vec<Case> {
                     if quick && idx % 2 == 0 && act != "reset" {
                         continue;
                     }
-                    out.push(Case { scn: s, menu: menu_null(), k: 1, extra: vec![], expect: Expect::Nothing });
+                    out.push(Case { scn: s, menu: menu_null(), k: 1, extra: vec![], expect: Expect::Nothing, injects: vec![], differential: false });
                 }
             }
             // peer-driven: server sends STOP_SENDING / resets its direction / closes
@@ -236,7 +240,7 @@ pub fn family(name: &str, tier: Tier) -> Vec<Case> {
                 let mut s = Scenario::base(name);
                 f(&mut s.server_mode);
                 s.tasks = base_tasks();
-                out.push(Case { scn: s, menu: menu_null(), k: 1, extra: vec![], expect: Expect::Nothing });
+                out.push(Case { scn: s, menu: menu_null(), k: 1, extra: vec![], expect: Expect::Nothing, injects: vec![], differential: false });
             }
         }
         // ------------------------------------------------------------------ HS
@@ -247,18 +251,114 @@ pub fn family(name: &str, tier: Tier) -> Vec<Case> {
                 s.mtu = mtu;
                 s.tasks = vec![echo_task(2000, 0)];
                 let menu = if tls == Tls::Null { menu_null() } else { menu_tls() };
-                out.push(Case { scn: s, menu, k: if tls == Tls::Null { 2 } else if quick { 1 } else { 2 }, extra: vec![], expect: Expect::Complete });
+                out.push(Case { scn: s, menu, k: if tls == Tls::Null { 2 } else if quick { 1 } else { 2 }, extra: vec![], expect: Expect::Complete, injects: vec![], differential: false });
             }
             // early close by the server application: CONNECTION_CLOSE packets count too
             let mut s = Scenario::base("hs/tls-server-early-close");
             s.tls = Tls::S2n;
             s.server_mode.close_after_ms = Some(0);
             s.tasks = vec![echo_task(2000, 0)];
-            out.push(Case { scn: s, menu: menu_tls(), k: 1, extra: vec![], expect: Expect::Nothing });
+            out.push(Case { scn: s, menu: menu_tls(), k: 1, extra: vec![], expect: Expect::Nothing, injects: vec![], differential: false });
+        }
+        // ------------------------------------------------------------------ STRAY: datagrams for no connection
+        "stray" => {
+            // every size 1..=1400 of four kinds of stray datagrams, spread over several runs; each comes
+            // from its own source port so that the reply (if any) can be attributed
+            let runs = if quick { 10usize } else { 28 };
+            let step = if quick { 4usize } else { 1 };
+            for run in 0..runs {
+                let mut s = Scenario::base(&format!("stray/run-{}", run));
+                s.tasks = vec![echo_task(2000, 0)];
+                let mut injects = Vec::new();
+                let mut size = 1 + run * step;
+                while size <= 1400 {
+                    for kind in 0..4u8 {
+                        injects.push(crate::net::Inject { before_idx: 4 + (size % 3) as u32, to: crate::record::SERVER, payload: stray_payload(kind, size), from_peer: false, src_port: stray_port(kind, size) });
+                    }
+                    size += runs * step;
+                }
+                out.push(Case { scn: s, menu: vec![], k: 0, extra: vec![], expect: Expect::Complete, injects, differential: false });
+            }
+        }
+        // ------------------------------------------------------------------ FORGE: forged variants of genuine datagrams
+        "forge" => {
+            for (name, tls) in [("forge/tls-echo-3000", Tls::S2n), ("forge/null-hs-only", Tls::Null)] {
+                let mut s = Scenario::base(name);
+                s.tls = tls;
+                s.tasks = vec![echo_task(if tls == Tls::S2n { 3000 } else { 10 }, 0)];
+                // with null TLS nothing is authenticated: only the handshake datagrams (Initial packets are
+                // protected by nothing there either) - so null is used for replays only
+                let menu = if tls == Tls::S2n { vec![Action::Forge(0), Action::Forge(1), Action::Forge(2), Action::Forge(3)] } else { vec![Action::Dup(60_000), Action::Dup(400_000)] };
+                out.push(Case { scn: s, menu, k: 1, extra: vec![], expect: Expect::Complete, injects: vec![], differential: tls == Tls::S2n });
+            }
+            let mut s = Scenario::base("forge/tls-replays");
+            s.tls = Tls::S2n;
+            s.tasks = vec![echo_task(3000, 1000)];
+            out.push(Case { scn: s, menu: vec![Action::Dup(1000), Action::Dup(60_000), Action::Dup(400_000)], k: if quick { 1 } else { 2 }, extra: vec![], expect: Expect::Complete, injects: vec![], differential: false });
+        }
+        // ------------------------------------------------------------------ KEYUP (hook H5)
+        "keyup" => {
+            for (name, tls, n, size) in [("keyup/tls-every-60", Tls::S2n, 60u64, 150_000usize), ("keyup/null-every-40", Tls::Null, 40, 100_000)] {
+                let mut s = Scenario::base(name);
+                s.tls = tls;
+                s.key_update_every = Some(n);
+                s.tasks = vec![echo_task(size, 0)];
+                s.horizon_ms = 120_000;
+                out.push(Case { scn: s, menu: vec![Action::Drop, Action::Delay(3), Action::Dup(1000)], k: 1, extra: vec![], expect: Expect::Complete, injects: vec![], differential: false });
+            }
         }
         _ => panic!("unknown family {}", name),
     }
     out
+}
+
+pub fn stray_port(kind: u8, size: usize) -> u16 {
+    10_000 + (kind as u16) * 2000 + size as u16
+}
+
+/// kind 0: short header, unknown connection id; 1: long header, unknown version; 2: a Version
+/// Negotiation packet; 3: Initial with a supported version in an undersized datagram
+pub fn stray_payload(kind: u8, size: usize) -> Vec<u8> {
+    let mut p = vec![0u8; size];
+    crate::mccore::prf_fill(0x57a7 ^ kind as u64, size as u64, &mut p);
+    match kind {
+        0 => {
+            p[0] = 0x40 | (p[0] & 0x3f);
+        }
+        1 | 2 | 3 => {
+            p[0] = 0xc0 | (p[0] & 0x0f);
+            let version: [u8; 4] = match kind {
+                1 => [0x1a, 0x2a, 0x3a, 0x4a],
+                2 => [0, 0, 0, 0],
+                _ => [0, 0, 0, 1],
+            };
+            for (i, b) in version.iter().enumerate() {
+                if 1 + i < size {
+                    p[1 + i] = *b;
+                }
+            }
+            // DCID len 8, SCID len 8
+            if size > 5 {
+                p[5] = 8;
+            }
+            if size > 14 {
+                p[14] = 8;
+            }
+            if kind == 3 {
+                // token length 0, length field = rest
+                if size > 23 {
+                    p[23] = 0;
+                }
+                if size > 25 {
+                    let rest = (size - 26) as u16;
+                    p[24] = 0x40 | (rest >> 8) as u8;
+                    p[25] = rest as u8;
+                }
+            }
+        }
+        _ => {}
+    }
+    p
 }
 
 pub struct PropertySpec {
@@ -277,8 +377,10 @@ pub fn property(p: &str) -> Option<PropertySpec> {
         "C08" => spec(vec!["ack"]),
         "C09" => spec(vec!["loss"]),
         "C10" => spec(vec!["sendgate"]),
-        "C11" => spec(vec!["amp"]),
+        "C11" => Some(PropertySpec { families: vec!["data", "live", "flow", "lifecycle", "hs", "stray"], monitors: vec!["amp", "stray"] }),
+        "C06" => Some(PropertySpec { families: vec!["forge"], monitors: vec!["auth", "ack", "data", "live"] }),
         "C12" => spec(vec!["txcons"]),
+        "C15" => Some(PropertySpec { families: vec!["keyup"], monitors: vec!["keyup", "data", "live"] }),
         _ => None,
     }
 }
@@ -307,6 +409,9 @@ pub fn run_monitors(names: &[String], case: &Case, r: &Record, only_finite_fault
                 monitors::mon_inflight(&case.scn, r, true, false, &mut out);
             }
             "sendgate" => monitors::mon_sendgate(&case.scn, r, &mut out),
+            "keyup" => monitors::mon_keyup(&case.scn, r, &mut out),
+            "stray" => monitors::mon_stray(&case.scn, r, &mut out),
+            "auth" => monitors::mon_auth(&case.scn, r, &mut out),
             other => panic!("unknown monitor {}", other),
         }
     }
